@@ -143,6 +143,35 @@ theorem map_sortBySeq {β : Type} (s : α → Nat) (t : β → Nat) (f : α → 
     | cons x xs ih => intro acc; simp only [List.foldl_cons, List.map_cons]; rw [ih, map_insertBySeq s t f hf]
   exact gen l []
 
+theorem map_insertBySeq_on {β : Type} (s : α → Nat) (t : β → Nat) (f : α → β) (x : α) (acc : List α) (hx : t (f x) = s x)
+    (hf : ∀ z ∈ acc, t (f z) = s z) : (insertBySeq s x acc).map f = insertBySeq t (f x) (acc.map f) := by
+  induction acc with
+  | nil => rfl
+  | cons y ys ih =>
+    unfold insertBySeq
+    simp only [List.map_cons, hx, hf y (by simp)]
+    split
+    · rfl
+    · simp only [List.map_cons, ih (fun z hz => hf z (List.mem_cons_of_mem _ hz))]
+
+theorem map_sortBySeq_on {β : Type} (s : α → Nat) (t : β → Nat) (f : α → β) (l : List α) (hf : ∀ z ∈ l, t (f z) = s z) :
+    (sortBySeq s l).map f = sortBySeq t (l.map f) := by
+  unfold sortBySeq
+  have gen : ∀ (l acc : List α), (∀ z ∈ l, t (f z) = s z) → (∀ z ∈ acc, t (f z) = s z) →
+      (l.foldl (fun acc x => insertBySeq s x acc) acc).map f = (l.map f).foldl (fun acc x => insertBySeq t x acc) (acc.map f) := by
+    intro l
+    induction l with
+    | nil => intro acc _ _; rfl
+    | cons x xs ih =>
+      intro acc h1 h2
+      simp only [List.foldl_cons, List.map_cons]
+      rw [ih _ (fun z hz => h1 z (List.mem_cons_of_mem _ hz)) (by
+        intro z hz
+        rcases (mem_insertBySeq s z x acc).mp hz with e | e
+        · rw [e]; exact h1 x (by simp)
+        · exact h2 z e), map_insertBySeq_on s t f x acc (h1 x (by simp)) h2]
+  exact gen l [] hf (by simp)
+
 /-- the key function may be replaced by one that agrees on the elements of the list -/
 theorem insertBySeq_congr (s t : α → Nat) (x : α) (acc : List α) (hx : s x = t x) (h : ∀ z ∈ acc, s z = t z) :
     insertBySeq s x acc = insertBySeq t x acc := by
